@@ -4,7 +4,7 @@
 From XcpModel Require Import Base Extents Sparse Blocks CopyLoop FileCopy.
 From XcpProofs Require Import ExtentsProofs SparseProofs BlocksProofs CopyLoopProofs FileCopyProofs.
 From XcpModel Require Import Extracted.
-From XcpProofs Require Import ExtractedOk.
+From XcpProofs Require Import XBlocks XLoops XOps.
 From XcpModel Require Import ConcBlock ConcOutcome.
 From XcpProofs Require Import ConcBlockProofs ConcOutcomeProofs.
 From XcpModel Require Import Walker Ops.
@@ -172,3 +172,29 @@ Print Assumptions C01_src_noprogress_block_size.
 Print Assumptions C01_every_schedule_every_byte_once.
 Print Assumptions C01_src_new_and_copy_file_order.
 Print Assumptions C01_src_copy_bytes_whole_loop.
+
+(* ---- further glue on this property's path, pinned token for token (an edit re-opens the obligation; the run then
+   looks for a failing input) ---- *)
+From XcpPins Require Import Pin_main_main Pin_parblock_new Pin_parfile_new Pin_mod_load_driver Pin_linux_copy_file_bytes Pin_linux_copy_file_offset Pin_linux_try_copy_file_range.
+From XcpProofs Require Import PinnedSource.
+Theorem C01_src_pin_main_main : pin_unchanged name_main_main.
+Proof. exact pin_main_main. Qed.
+Theorem C01_src_pin_parblock_new : pin_unchanged name_parblock_new.
+Proof. exact pin_parblock_new. Qed.
+Theorem C01_src_pin_parfile_new : pin_unchanged name_parfile_new.
+Proof. exact pin_parfile_new. Qed.
+Theorem C01_src_pin_mod_load_driver : pin_unchanged name_mod_load_driver.
+Proof. exact pin_mod_load_driver. Qed.
+Theorem C01_src_pin_linux_copy_file_bytes : pin_unchanged name_linux_copy_file_bytes.
+Proof. exact pin_linux_copy_file_bytes. Qed.
+Theorem C01_src_pin_linux_copy_file_offset : pin_unchanged name_linux_copy_file_offset.
+Proof. exact pin_linux_copy_file_offset. Qed.
+Theorem C01_src_pin_linux_try_copy_file_range : pin_unchanged name_linux_try_copy_file_range.
+Proof. exact pin_linux_try_copy_file_range. Qed.
+Print Assumptions C01_src_pin_main_main.
+Print Assumptions C01_src_pin_parblock_new.
+Print Assumptions C01_src_pin_parfile_new.
+Print Assumptions C01_src_pin_mod_load_driver.
+Print Assumptions C01_src_pin_linux_copy_file_bytes.
+Print Assumptions C01_src_pin_linux_copy_file_offset.
+Print Assumptions C01_src_pin_linux_try_copy_file_range.
